@@ -18,6 +18,7 @@ src: dlinked_list.c, obj.c
 tier: B
 backend: cadical
 unwind: 10
+unwind_thorough: 12
 bound: list length 1..4, elements of any key, no placeholder
 funcs: spif_dlinked_list_dup, spif_dlinked_list_item_dup, spif_dlinked_list_new, spif_dlinked_list_del, spif_dlinked_list_done
 */
@@ -28,6 +29,7 @@ src: dlinked_list.c, obj.c
 tier: B
 backend: cadical
 unwind: 10
+unwind_thorough: 12
 bound: list length 1..4 with at least one NULL placeholder
 funcs: spif_dlinked_list_dup, spif_dlinked_list_item_dup
 */
@@ -38,6 +40,7 @@ src: dlinked_list.c, obj.c
 tier: B
 backend: cadical
 unwind: 10
+unwind_thorough: 12
 bound: the empty list
 funcs: spif_dlinked_list_dup
 */
@@ -48,6 +51,7 @@ src: dlinked_list.c, obj.c
 tier: B
 backend: cadical
 unwind: 10
+unwind_thorough: 12
 bound: vector length 1..4, ascending keys
 funcs: spif_dlinked_list_vector_dup, spif_dlinked_list_item_dup, spif_dlinked_list_vector_new
 */
@@ -58,6 +62,7 @@ src: dlinked_list.c, obj.c
 tier: B
 backend: cadical
 unwind: 10
+unwind_thorough: 12
 bound: the empty vector
 funcs: spif_dlinked_list_vector_dup
 */
@@ -68,6 +73,7 @@ src: dlinked_list.c, objpair.c, obj.c
 tier: B
 backend: cadical
 unwind: 10
+unwind_thorough: 12
 objbits: 10
 timeout: 600
 bound: map size 1..4, all key and value keys
@@ -80,6 +86,7 @@ src: dlinked_list.c, objpair.c, obj.c
 tier: B
 backend: cadical
 unwind: 10
+unwind_thorough: 12
 objbits: 10
 bound: the empty map
 funcs: spif_dlinked_list_map_dup
@@ -91,6 +98,7 @@ src: dlinked_list.c, obj.c
 tier: B
 backend: cadical
 unwind: 10
+unwind_thorough: 12
 bound: list length <= 4 (the content is irrelevant); at least one argument NULL
 funcs: spif_dlinked_list_comp
 */
@@ -101,6 +109,7 @@ src: dlinked_list.c, obj.c
 tier: B
 backend: cadical
 unwind: 10
+unwind_thorough: 12
 bound: two lists of length <= 4; recursion depth <= 8
 funcs: spif_dlinked_list_comp
 */
